@@ -23,7 +23,7 @@ from hpstatic.terms import (sym, intern, show, subterms, calls_in, NONE, num, kw
                             atoms_of)
 from . import c01
 from hpstatic.loader import AnalysisError
-from .common import init_of, init_params
+from .common import init_of, init_params, call_args, term_args
 
 MUTATION_TARGETS = {'holopy/scattering/imageformation.py': ['_calculate_scattered_field_from_superposition', '_calculate_multiple_color_scattered_field', '_calculate_single_color_scattered_field', 'select_scatterer_by_illumination'], 'holopy/scattering/scatterer/composite.py': ['get_component_list'], 'holopy/core/metadata.py': ['to_vector', 'dict_to_array'], 'holopy/scattering/interface.py': ['prep_schema']}
 
@@ -225,9 +225,9 @@ def channels(check, prog):
                 tsc, ts = tf[2]
     um = [c for c in subterms(ts) if c[0] == 'call' and c[1] == MD + 'update_metadata'] \
         if ts is not None else []
-    ok = bool(um) and um[0][2] and um[0][2][0] == sch
+    ok = bool(um) and term_args(prog, um[0]).get('a') == sch
     if ok:
-        kws = dict(um[0][3])
+        kws = term_args(prog, um[0])
         for key in ('illum_wavelen', 'illum_polarization'):
             val = kws.get(key)
             good = val is not None and any(x == sel_of(key) for x in subterms(val))
@@ -250,7 +250,8 @@ def channels(check, prog):
     # stacking
     ok = v[0] == 'call' and v[1] == MD + 'clean_concat' and v[2] and \
         v[2][0][0] == 'loop' and v[2][0][3] == ('list', ()) and \
-        kw(v, 'dim') == ('attr', ('attr', sch, 'illum_wavelen'), 'illumination')
+        term_args(prog, v).get('dim') == (
+            'attr', ('attr', sch, 'illum_wavelen'), 'illumination')
     if ok:
         st = v[2][0][4]
         ok = st[0] == 'mut' and st[2] == 'append' and st[3] == (tf,)
